@@ -48,10 +48,13 @@ def twin_rule(ctx, world, rule, only=None):
 
 
 def run(ctx):
-    units = ["core", "fx_macros"]
+    # derive output: fx_mc holds derive-generated Choice12 / 13 / 17; the thorough tier adds every operator form and the getter fixture
+    extra = ["fx_mc"] + (["fx_ops", "fx_getters"] if ctx.tier == "thorough" else [])
+    units = ["core", "fx_macros"] + extra
     fs = facts.load(*units)
-    world = nodes.World(fs, ["pest_typed", "fx_macros"])
-    ctx.analysed = {"crates": ["pest_typed (lib, default features)", "fx_macros (every exported rule macro, seq!/choices! at arity 13)"]}
+    world = nodes.World(fs, ["pest_typed", "fx_macros"] + extra)
+    ctx.analysed = {"crates": ["pest_typed (lib, default features)", "fx_macros (every exported rule macro, seq!/choices! at arity 13)"] +
+                    ["%s (derive output)" % x for x in extra]}
     r = ctx.rule("R03-TWIN", "every parse/check twin pair has equal normal-form effect decision trees "
                              "(cursor, stack, tracker events, guards, loop ranges, returned cursor)")
     n_main, n_fx, shapes = twin_rule(ctx, world, r)
